@@ -1,6 +1,6 @@
 HARNESS = "c07"
 LEVEL = "translation_validation"
-TIMEOUT = 3000
+TIMEOUT = 7200   # model driver (the verified acceptance checker recomputes Sturm chains: thorough runs take 20-40 min on a loaded machine)
 """C07 case generator: real algebraic numbers.  Every random choice comes from the one `rng` passed in.
 
 A case:  seq T0 T1 ... | step step ...      (tokens of harness/valio.h; steps of harness/c07.c)
@@ -842,15 +842,15 @@ def closeroot_case(rng, k):
 
 
 def generate(rng, tier, corpus_only=False):
-    n = 640 if tier == "quick" else 8000
+    n = 640 if tier == "quick" else 5000
     cases = ["seq %s | %s" % (p, " ".join(s)) for (p, s) in COLLAPSE]
     while len(cases) < n:
         cases.append(one_case(rng, tier))
     # the structured block comes last: the random stream of the cases above does not depend on it
-    for k in range(600 if tier == "quick" else 3000):
+    for k in range(600 if tier == "quick" else 1800):
         cases.append(signmul_case(rng, k))
         SIGNMUL_CASES.add(cases[-1])
-    for k in range(120 if tier == "quick" else 900):
+    for k in range(120 if tier == "quick" else 500):
         cases.append(closeroot_case(rng, k))
         CLOSEROOT_CASES.add(cases[-1])
     return cases
